@@ -17,7 +17,7 @@ pub(crate) enum Command {
     Backup,
     /// restore the GPA service
     Restore {
-        #[arg(default_value_t = true)]
+        #[arg(default_value_t = true, action = clap::ArgAction::Set)]
         delete_backup: bool,
     },
     /// uninstall the GPA service
